@@ -99,4 +99,80 @@ func factsBroker(repo string, o *out) {
 
 	fc := parse(repo, "service/client.go")
 	o.def("minKeepAlive", "Nat", strconv.FormatInt(constInt(fc, "minKeepAlive"), 10))
+
+	// receiver(): keepAlive := time.Second * time.Duration(svc.keepAlive)
+	//             r := timeoutReader{d: keepAlive + (keepAlive / N), ...}
+	fr := parse(repo, "service/sendrecv.go")
+	recv := findFunc(fr, "service", "receiver")
+	unit, div := "", int64(0)
+	ast.Inspect(recv.Body, func(n ast.Node) bool {
+		switch x := n.(type) {
+		case *ast.AssignStmt:
+			if len(x.Lhs) == 1 && exprString(x.Lhs[0]) == "keepAlive" && len(x.Rhs) == 1 {
+				if exprString(x.Rhs[0]) != "(time.Second*time.Duration(svc.keepAlive))" {
+					die("receiver: keepAlive is not time.Second * time.Duration(svc.keepAlive): %s", exprString(x.Rhs[0]))
+				}
+				unit = "second"
+			}
+		case *ast.KeyValueExpr:
+			if exprString(x.Key) == "d" {
+				be, ok := x.Value.(*ast.BinaryExpr)
+				if !ok || be.Op != token.ADD || exprString(be.X) != "keepAlive" {
+					die("receiver: deadline is not keepAlive + …: %s", exprString(x.Value))
+				}
+				q, ok := be.Y.(*ast.ParenExpr)
+				var qe *ast.BinaryExpr
+				if ok {
+					qe, ok = q.X.(*ast.BinaryExpr)
+				} else {
+					qe, ok = be.Y.(*ast.BinaryExpr)
+				}
+				if !ok || qe.Op != token.QUO || exprString(qe.X) != "keepAlive" {
+					die("receiver: deadline is not keepAlive + keepAlive / N: %s", exprString(x.Value))
+				}
+				div = evalInt(qe.Y)
+			}
+		}
+		return true
+	})
+	if unit == "" || div == 0 {
+		die("receiver: keep-alive deadline expression not found")
+	}
+	// read deadline in nanoseconds for a keep-alive of k seconds: k·10⁹ + k·10⁹ / keepAliveDivisor
+	o.def("keepAliveDivisor", "Nat", strconv.FormatInt(div, 10))
+
+	// timeoutReader.Read re-arms the deadline before every conn.Read
+	tr := findFunc(fr, "timeoutReader", "Read")
+	rearm := false
+	ast.Inspect(tr.Body, func(n ast.Node) bool {
+		if c, ok := n.(*ast.CallExpr); ok && exprString(c.Fun) == "r.conn.SetReadDeadline" {
+			if len(c.Args) == 1 && exprString(c.Args[0]) == "time.Now().Add(r.d)" {
+				rearm = true
+			}
+		}
+		return true
+	})
+	if !rearm {
+		die("timeoutReader.Read no longer re-arms the read deadline with time.Now().Add(r.d)")
+	}
+	o.def("keepAliveRearmedPerRead", "Bool", "true")
+
+	// handleConnection: a keep-alive of 0 is replaced by minKeepAlive
+	fsrv := parse(repo, "service/server.go")
+	hc := findFunc(fsrv, "Server", "handleConnection")
+	zero := false
+	ast.Inspect(hc.Body, func(n ast.Node) bool {
+		if ifs, ok := n.(*ast.IfStmt); ok && exprString(ifs.Cond) == "(req.KeepAlive()==0)" {
+			if len(ifs.Body.List) == 1 {
+				if es, ok := ifs.Body.List[0].(*ast.ExprStmt); ok && exprString(es.X) == "req.SetKeepAlive(minKeepAlive)" {
+					zero = true
+				}
+			}
+		}
+		return true
+	})
+	if !zero {
+		die("handleConnection: `if req.KeepAlive() == 0 { req.SetKeepAlive(minKeepAlive) }` not found")
+	}
+	o.def("keepAliveZeroMeansMin", "Bool", "true")
 }
